@@ -262,7 +262,7 @@ class Gen:
                 self.w.count("hostile.bulk_remove")
         if self.r.random() < 0.1:
             xs = []
-        return {"op": bulk, "on": p[0], "xs": xs, "as_set": self.r.random() < 0.5}
+        return {"op": bulk, "on": p[0], "xs": xs, "as_set": self.r.choice([False, False, True, True, "iter", "gen"])}
 
     def f_reorder(self):
         ck = self._rel()
@@ -398,7 +398,7 @@ class Gen:
                 self.w.count("hostile.bulk_disconnect")
         if self.r.random() < 0.1:
             refs = []
-        return {"op": "disconnect_pins_from", "on": wr[0], "pins": refs, "as_set": self.r.random() < 0.5}
+        return {"op": "disconnect_pins_from", "on": wr[0], "pins": refs, "as_set": self.r.choice([False, False, True, True, "iter", "gen"])}
 
     def f_wire_reorder(self):
         return None
